@@ -1,7 +1,7 @@
 (* C14 — by default a trailing slash on the request path changes nothing. *)
-From Model Require Import Str Sexp Http Template Table Curly DetectRoute Jsr311 Router.
+From Model Require Import Str Sexp Http Template Table Curly DetectRoute Jsr311 Router Registry.
 From Spec Require Import RouteSpec.
-From Proofs Require Import TemplateFacts RouterProofs JsrProofs SlashJsrProofs.
+From Proofs Require Import TemplateFacts RouterProofs JsrProofs SlashJsrProofs SlashServeProofs.
 
 (* CurlyRouter, all templates (well-formed or not), every table and request:
    for a path p with at least one non-slash byte, p and p ++ "/" have the same
@@ -42,3 +42,27 @@ Definition C14_jsr_statement : Prop :=
 Theorem C14_jsr : C14_jsr_statement.
 Proof. exact jsr_trailing_slash. Qed.
 Print Assumptions C14_jsr.
+
+(* Through Container.ServeHTTP, for the container state reached by ANY registration history (the Registry model of
+   C11: Add / Remove / Route / RemoveRoute / Handle in any order): whenever the mux hands both p and p/ to the
+   container's dispatch, the two answers are the same.  (Which patterns the container registers is what decides
+   that premise; the check evaluates it with the same model and demands equal answers from the implementation.) *)
+Definition C14_servehttp_statement : Prop :=
+  forall (O : oracles) (s : cstate) (req : request) (p : str),
+    existsb (fun x => negb (Ascii.eqb x slash)) p = true ->
+    mux_serve (cs_mux s) p = MTarget TDispatch ->
+    mux_serve (cs_mux s) (p ++ [slash]) = MTarget TDispatch ->
+    serve_http O Curly s (with_path req (p ++ [slash])) = serve_http O Curly s (with_path req p).
+Theorem C14_servehttp : C14_servehttp_statement.
+Proof. exact curly_slash_servehttp. Qed.
+Print Assumptions C14_servehttp.
+
+Definition C14_servehttp_jsr_statement : Prop :=
+  forall (O : oracles) (s : cstate) (req : request) (p : str),
+    table_plain O (cs_table Jsr311 s) = true -> ends_slash p = false -> p <> [] ->
+    mux_serve (cs_mux s) p = MTarget TDispatch ->
+    mux_serve (cs_mux s) (p ++ [slash]) = MTarget TDispatch ->
+    serve_http O Jsr311 s (with_path req (p ++ [slash])) = serve_http O Jsr311 s (with_path req p).
+Theorem C14_servehttp_jsr : C14_servehttp_jsr_statement.
+Proof. exact jsr_slash_servehttp. Qed.
+Print Assumptions C14_servehttp_jsr.
